@@ -356,7 +356,9 @@ fn split_at_scalar(d: &[u8]) -> (Scalar, &[u8]) {
         //  ] = 0x5d
         //  { = 0x7b
         //  } = 0x7d
-        // * = unknown if boundary character. Can be removed for perf
+        // * = unknown if boundary character. They are boundary characters in
+        // the lookup table used by the scalar fallback, so they must be
+        // matched here too or the result depends on the input's length.
         while ptr < end_ptr {
             let input = _mm_loadu_si128(ptr as *const __m128i);
             let t0 = _mm_cmpeq_epi8(input, _mm_set1_epi8(9));
@@ -383,6 +385,12 @@ fn split_at_scalar(d: &[u8]) -> (Scalar, &[u8]) {
             result = _mm_or_si128(result, t10);
             let t11 = _mm_cmpeq_epi8(input, _mm_set1_epi8(93));
             result = _mm_or_si128(result, t11);
+            let t12 = _mm_cmpeq_epi8(input, _mm_set1_epi8(33));
+            result = _mm_or_si128(result, t12);
+            let t13 = _mm_cmpeq_epi8(input, _mm_set1_epi8(11));
+            result = _mm_or_si128(result, t13);
+            let t14 = _mm_cmpeq_epi8(input, _mm_set1_epi8(12));
+            result = _mm_or_si128(result, t14);
 
             let found_mask = _mm_movemask_epi8(result);
             if found_mask != 0 {
